@@ -9,6 +9,7 @@ pub mod c15;
 pub mod c16;
 pub mod c17;
 pub mod c18;
+pub mod c19;
 pub mod c20;
 pub mod c04;
 pub mod c05;
@@ -17,7 +18,7 @@ pub mod c07;
 pub mod c09;
 
 pub fn all() -> Vec<&'static dyn Prop> {
-    vec![&prog::C01, &prog::C02, &prog::C03, &prog::C08, &c04::C04, &c05::C05, &c06::C06, &c07::C07, &c09::C09, &c10::C10, &c13::C13, &c14::C14, &c15::C15, &c16::C16, &c17::C17, &c18::C18, &c20::C20]
+    vec![&prog::C01, &prog::C02, &prog::C03, &prog::C08, &c04::C04, &c05::C05, &c06::C06, &c07::C07, &c09::C09, &c10::C10, &c13::C13, &c14::C14, &c15::C15, &c16::C16, &c17::C17, &c18::C18, &c19::C19, &c20::C20]
 }
 
 pub fn find(id: &str) -> Option<&'static dyn Prop> {
